@@ -103,6 +103,14 @@ func cmdDebug(args []string) (code int) {
 	for _, r := range runs {
 		fmt.Printf("entry %-28s paths=%d states=%d forks=%d loops=%d rounds=%d inlined=%d merged=%d funcs=%d\n", r.Entry, r.Paths, r.States, r.Forks, r.Loops, r.Rounds, r.Inlined, r.Merged, len(r.Funcs))
 	}
+	for ru, es := range rules.seen {
+		var l []string
+		for e := range es {
+			l = append(l, e)
+		}
+		sort.Strings(l)
+		fmt.Printf("seen %-22s %d: %s\n", ru, len(l), strings.Join(l, " | "))
+	}
 	var ks []string
 	for k := range rules.obl {
 		ks = append(ks, k)
